@@ -14,4 +14,5 @@ func exploreBFS(ops []int, depth int, dedup bool, deadline time.Time, exec explo
 var Runners = map[string]func(tier string) int{
 	"C01": func(t string) int { return RunUnpackSafety("C01", t) },
 	"C04": func(t string) int { return RunUnpackSafety("C04", t) },
+	"C15": RunC15,
 }
